@@ -35,7 +35,7 @@ def main():
         a = sh(['git', '-C', wt, 'apply', str(patch)])
         ok['applies'] = a.returncode == 0
         if ok['applies']:
-            b = sh(['/tmp/baseline_tools/run_baseline.py', wt], timeout=1800)
+            b = sh(['/verif/selftest/run_baseline.py', wt], timeout=1800)
             ok['baseline_ok'] = 'BASELINE OK' in b.stdout
             d1 = sh(['/venv/bin/python', str(src / 'demo.py')], env=env, cwd='/tmp', timeout=900)
             ok['demo_with'] = d1.returncode
@@ -60,7 +60,7 @@ def main():
             'files': files, 'needs_to_manifest': notes[:1500],
             'confirmed': {'patch_applies_to_HEAD': True, 'baseline_371_stable_pass_with_patch': True,
                           'demo_exit_with_patch': 1, 'demo_exit_without_patch': 0,
-                          'commands': ['git worktree add /tmp/confirm_wt_<name> HEAD', 'git apply patch.diff', '/tmp/baseline_tools/run_baseline.py <worktree>  (pytest with junit, all 371 BASELINE.json stable tests must pass)',
+                          'commands': ['git worktree add /tmp/confirm_wt_<name> HEAD', 'git apply patch.diff', '/verif/selftest/run_baseline.py <worktree>  (pytest with junit, all 371 BASELINE.json stable tests must pass)',
                                        'PYTHONPATH=<worktree>/src /venv/bin/python demo.py  (with and without the patch)', 'git worktree remove --force']}}
     (dest / 'meta.json').write_text(json.dumps(meta, indent=1))
     print('CONFIRMED ->', dest)
